@@ -199,6 +199,19 @@ def handleBytes (toks : List String) : Option String :=
       let (r, c) := runFmt f3 (oracleInflate tbl) d.toList .eof
       some s!"{if r.isOk then "ok" else "err"} consumed={c.consumed} steps={c.steps} alloc={c.alloc}"
     | _, _, _ => some "bad-op"
+  | "loadr" :: f :: dh :: orc =>
+    -- result and replayed stream only (source not instrumented on the Go side)
+    match parseHexBytes? dh, parseOracle orc with
+    | some d, some tbl =>
+      let data := d.toList
+      let src : Src := { rest := data }
+      let (a, rd) := if f == "auto" then Auto.load (oracleInflate tbl) (data.length + 16) (.src src)
+        else match fmt3Of? f with
+          | some f3 => load (oracleInflate tbl) (progOf f3 (data.length + 16)) (.src src)
+          | none => (.error (.bad "fmt"), .src src)
+      let (bytes, e, _) := rd.drain (data.length + 8) 512 []
+      some s!"{resStr a} replay={bytesDigest bytes} end={errStr e}"
+    | _, _ => some "bad-op"
   | "loadx" :: f :: ee :: ewd :: sched :: dh :: orc =>
     match parseHexBytes? dh, parseOracle orc with
     | some d, some tbl => some (loadxRun f ee ewd sched d.toList tbl)
